@@ -538,6 +538,9 @@ declarations:
 """
 CMD_OPTIONS = [("debug", True, "true"), ("wrap_lua", True, "true"), ("F_line_length", 60, "60"),
                ("C_line_length", 50, "50"), ("wrap_python", True, "True"), ("doxygen", False, "false")]
+# the value the file may carry for an option that is also given on the command line (main.py: "Add options from command
+# line last so they replace values from YAML files")
+CMD_STALE = {"debug": False, "wrap_lua": False, "F_line_length": 100, "C_line_length": 100, "wrap_python": False, "doxygen": True}
 
 
 def run_main(yaml_text, option_args, language=None, use_create_wrapper=False):
@@ -581,33 +584,45 @@ def run_main(yaml_text, option_args, language=None, use_create_wrapper=False):
 
 
 class CmdHarness(object):
-    def __init__(self, twin=False):
-        self.twin = twin
+    def __init__(self, twin=False, stale=False):
+        # stale: every option (and the language) is on the command line; which of them the file states with ANOTHER value
+        # is symbolic.  Otherwise: which options are on the command line (and in which spelling) is symbolic.
+        self.twin, self.stale_mode = twin, stale
 
     def run(self, e):
         import yaml
         self.on_cmd = {}
+        self.stale = {}
         d = yaml.safe_load(CMD_LIB)
         dall = yaml.safe_load(CMD_LIB)
         cmd = []
         for (name, val, txt) in CMD_OPTIONS:
             z = z3.Bool("cmd_" + name)
             dall.setdefault("options", {})[name] = val
-            if e.branch(z):
+            if self.stale_mode or e.branch(z):
                 self.on_cmd[name] = True
-                if isinstance(val, bool):
+                if isinstance(val, bool) and self.stale_mode:
+                    self.on_cmd[name] = txt
+                elif isinstance(val, bool):
                     # both spellings main.py accepts: true/false and True/False
                     txt = str(val) if e.branch(z3.Bool("capital_" + name)) else str(val).lower()
                     self.on_cmd[name] = txt
                 cmd.append("%s=%s" % (name, txt))
+                if self.stale_mode and e.branch(z3.Bool("stale_" + name)):
+                    # the file states another value: the command line replaces it
+                    d.setdefault("options", {})[name] = CMD_STALE[name]
+                    self.stale[name] = True
             else:
                 self.on_cmd[name] = False
                 d.setdefault("options", {})[name] = val
-        lang_cmd = e.branch(z3.Bool("cmd_language"))
+        lang_cmd = True if self.stale_mode else e.branch(z3.Bool("cmd_language"))
         self.lang_cmd = lang_cmd
         dall["language"] = "c++"
         if not lang_cmd:
             d["language"] = "c++"
+        elif self.stale_mode and e.branch(z3.Bool("stale_language")):
+            d["language"] = "c"
+            self.stale["language"] = True
         try:
             rA = ("ok", run_main(yaml.safe_dump(dall), [], None))
         except (RuntimeError, SystemExit) as ex:
@@ -616,7 +631,8 @@ class CmdHarness(object):
         return rA, rB
 
     def witness(self, what):
-        return {"kernel": "cmdline", "on_command_line": dict(self.on_cmd), "language_on_command_line": self.lang_cmd, "what": what}
+        return {"kernel": "cmdline", "on_command_line": dict(self.on_cmd), "language_on_command_line": self.lang_cmd,
+                "other_value_in_file": dict(self.stale), "what": what}
 
     def judge(self, e, kind, value):
         if kind == "exc":
@@ -646,11 +662,15 @@ def confirm_cmd(w):
             if isinstance(w["on_command_line"][name], str):
                 txt = w["on_command_line"][name]
             cmd.append("%s=%s" % (name, txt))
+            if w.get("other_value_in_file", {}).get(name):
+                d.setdefault("options", {})[name] = CMD_STALE[name]
         else:
             d.setdefault("options", {})[name] = val
     dall["language"] = "c++"
     if not w["language_on_command_line"]:
         d["language"] = "c++"
+    elif w.get("other_value_in_file", {}).get("language"):
+        d["language"] = "c"
     try:
         rA = run_main(yaml.safe_dump(dall), [], None)
         rB = run_main(yaml.safe_dump(d), cmd, "c++" if w["language_on_command_line"] else None)
@@ -830,6 +850,8 @@ def main():
         labels.append("inline vs attrs/fattrs: %s" % ATTR_SHAPES[i]["name"])
     specs.append(("harness.C14", "make_cmd", {}))
     labels.append("--option/--language vs YAML")
+    specs.append(("harness.C14", "make_cmd", dict(stale=True)))
+    labels.append("--option/--language replace another value stated in the file")
     specs.append(("harness.C14", "make_placement", {}))
     labels.append("namespace this_call fields / class template instantiation options")
     accs = driver.explore_many(specs, split_depth=4, time_budget_s=600 if tier == "quick" else 3000, max_decisions=20000)
